@@ -112,6 +112,45 @@ pub fn child_sweep(args: &[String]) -> i32 {
     0
 }
 
+
+/// every formatter alias, as a stand-alone pattern
+const FORMATTERS: [&str; 34] = [
+    "{d}", "{date}", "{d(%H:%M)(utc)}", "{f}", "{file}", "{h({l})}", "{highlight({m})}", "{D({l})}", "{debug({l})}", "{R({l})}", "{release({l})}",
+    "{l}", "{level}", "{L}", "{line}", "{m}", "{message}", "{M}", "{module}", "{P}", "{pid}", "{i}", "{tid}", "{n}", "{t}", "{target}",
+    "{T}", "{thread}", "{I}", "{thread_id}", "{X(k)}", "{mdc(k)(dflt)}", "{({l}):>7}", "{bogus}",
+];
+
+/// child: every formatter is encoded as the very first thing a fresh thread does (lazily built
+/// thread-locals: first use) and once more on the same thread (later use); outputs must agree.
+/// Encoding from a thread-local *destructor* during thread teardown is deliberately not probed: it is
+/// outside the property's quantifier and the unchanged tree panics there for {d} (chrono's zone cache).
+pub fn child_exit() -> i32 {
+    let mut combos = 0u64;
+    for f in FORMATTERS {
+        eprintln!("T {} fresh-thread", f);
+        combos += 1;
+        let pat = f.to_string();
+        let r = std::thread::Builder::new().name("worker".into()).spawn(move || (try_pattern(&pat, true), try_pattern(&pat, true))).unwrap().join();
+        match r {
+            Err(_) => println!("{}", json!({"kind": "violation", "sig": "fresh-thread:panic-escaped-the-thread", "detail": f, "case": {"pattern": f}})),
+            Ok((a, b)) => {
+                for (which, o) in [("first", &a), ("second", &b)] {
+                    if let Outcome::PanicNew(m) | Outcome::PanicEncode(m) = o {
+                        println!("{}", json!({"kind": "violation", "sig": format!("fresh-thread:panic:{}", panic_site(m)), "detail": format!("pattern {:?}, {} encode on a fresh thread: {}", f, which, m), "case": {"pattern": f}}));
+                    }
+                }
+                if let (Outcome::Ok(x), Outcome::Ok(y)) = (&a, &b) {
+                    if x != y && !f.starts_with("{d") {
+                        println!("{}", json!({"kind": "violation", "sig": "fresh-thread:first-and-second-encode-differ", "detail": format!("pattern {:?}: {:?} then {:?}", f, String::from_utf8_lossy(x), String::from_utf8_lossy(y)), "case": {"pattern": f}}));
+                    }
+                }
+            }
+        }
+    }
+    println!("{}", json!({"kind": "stat", "combos": combos}));
+    0
+}
+
 const DOC_PATTERNS: [&str; 12] = [
     "{d} {l} {t} - {m}{n}",
     "{d(%Y-%m-%d %H:%M:%S)}",
@@ -210,7 +249,7 @@ pub fn run(ctx: &Ctx) -> Report {
         "E-ENUM: (i) every string over the 19-symbol syntax alphabet up to the length bound, alone and after the prefix 'x{l}', constructed and encoded \
          under catch_unwind in worker processes; (ii) every single edit (thorough: double edits of the shorter ones) of 12 documented patterns; \
          (iii) definite-error classes must show an {ERROR marker or return Err, with the preceding text rendered; (iv) every single-directive strftime \
-         format; (v) widths of 1..25 digits. Non-trivial = string containing at least one syntax character",
+         format; (v) widths of 1..25 digits; (vi) every formatter as the first and second encode of a fresh thread. Non-trivial = string containing at least one syntax character",
     );
     let maxlen = ctx.tier.pick(6usize, 7usize);
     let nparts = 16u64;
@@ -386,6 +425,37 @@ pub fn run(ctx: &Ctx) -> Report {
     }
     rep.add("evaluations", n5);
     rep.set("width_patterns", n5);
+    // (vi) thread life cycle: first and later use on a fresh thread, per formatter
+    {
+        let o = run_child(&ctx.exe, "c11exit", &[], &[], ctx.cap);
+        let lines = o.json_lines();
+        for v in &lines {
+            if v["kind"] == "violation" {
+                if v["sig"] == "MACHINERY" {
+                    eprintln!("MACHINERY FAILURE: c11exit: {}", v["detail"]);
+                    std::process::exit(2);
+                }
+                rep.violation(v["sig"].as_str().unwrap_or("?"), v["detail"].as_str().unwrap_or(""), v["case"].clone());
+            }
+        }
+        match lines.iter().find(|v| v["kind"] == "stat") {
+            Some(st) => {
+                rep.add("evaluations", st["combos"].as_u64().unwrap_or(0) * 2);
+                rep.set("fresh_thread_formatters", st["combos"].as_u64().unwrap_or(0));
+            }
+            None => {
+                let last = String::from_utf8_lossy(&o.stderr).lines().filter_map(|l| l.strip_prefix("T ").map(|s| s.to_owned())).last().unwrap_or_default();
+                let mut it = last.splitn(2, ' ');
+                let pat = it.next().unwrap_or("").to_owned();
+                let order = it.next().unwrap_or("").to_owned();
+                rep.violation(
+                    "fresh-thread:abort",
+                    format!("the process died (status {:?}) encoding pattern {:?} on a fresh thread ({}): {}", o.status, pat, order, String::from_utf8_lossy(&o.stderr).lines().last().unwrap_or("")),
+                    json!({"pattern": pat, "thread_exit": order}),
+                );
+            }
+        }
+    }
     rep.sample(json!({"pattern": nth_string(ctx.seed.wrapping_mul(7919) % 19u64.pow(5), 5)}));
     rep.sample(json!({"pattern": ed[(ctx.seed as usize * 13 + ed.len() / 2) % ed.len()]}));
     rep.sample(json!({"pattern": "<{d(%Q)(utc)}>"}));
